@@ -294,7 +294,14 @@ def run_supervised(binary, test, env, scratch, tag, total, prop, timeout=3000, m
         rpf = os.path.join(rp, "%s-crash-%s-%s.txt" % (prop, tag, idx))
         with open(rpf, "w") as f:
             f.write("case %s: %s\n\n%s\n" % (idx, what, p.stdout[-6000:]))
-        crashes.append(dict(property=prop, kind="monitor", sig="panic|%s|%s" % (site, what.split("|")[0] if "|" in what else what),
+        kind = "monitor"
+        if "main bubble goroutine has exited" in msg:
+            # the test runner's report of goroutines left over at the end of a bubble (a leak, or a harness step that was not
+            # finished): not a panic of the code under test
+            kind, site = "conformance", "leftover-goroutines"
+        elif library_crash(p.stdout) is None and site == "?":
+            kind = "conformance"  # no go-perun frame anywhere: the harness died
+        crashes.append(dict(property=prop, kind=kind, sig="panic|%s|%s" % (site, what.split("|")[0] if "|" in what else what),
                             what="the client process panicked while handling case %s (%s): %s @ %s" % (idx, what, msg, site),
                             replay=rpf, case=what))
         start = int(idx) + 1
